@@ -3,6 +3,7 @@ package checks
 import (
 	"fmt"
 	"math/rand"
+	"os"
 	"sort"
 	"strings"
 
@@ -344,7 +345,10 @@ func runC14(c *run.Ctx) {
 		if i%2 == 0 {
 			// a directive whose argument is an input object, used with a value that leaves a field to its default
 			base.Types = append(base.Types, &model.TypeDef{Kind: model.Input, Name: "OptZz", Inputs: []*model.ArgDef{{Name: "a", Type: model.Named("Int"), HasDefault: true, Default: int64(1)}, {Name: "s", Type: model.Named("String")}}})
-			base.Dirs = append(base.Dirs, &model.DirDef{Name: "cfgZz", On: []string{"OBJECT"}, Args: []*model.ArgDef{{Name: "opt", Type: model.Named("OptZz")}}})
+			base.Dirs = append(base.Dirs, &model.DirDef{Name: "cfgZz", On: []string{"OBJECT"}, Args: []*model.ArgDef{{Name: "opt", Type: model.Named("OptZz")},
+				// ... and arguments whose DEFAULTS are such values: a failing load that extends OptZz must not complete them either
+				{Name: "dflt", Type: model.Named("OptZz"), HasDefault: true, Default: model.NewObjLit().Set("s", "d")},
+				{Name: "many", Type: model.ListOf(model.Named("OptZz")), HasDefault: true, Default: []interface{}{model.NewObjLit()}}}})
 			if qt := base.Type(base.Query); qt != nil {
 				qt.Dirs = append(qt.Dirs, model.DirUse{Name: "cfgZz", Args: []model.Arg{{Name: "opt", Value: model.NewObjLit().Set("s", "x")}}})
 			}
@@ -392,6 +396,9 @@ func runC14(c *run.Ctx) {
 		shadow, err2 := loadSDL(sdl)
 		if err != nil || err2 != nil {
 			c.Count("base_schema_not_accepted(left_to_C13)", 1)
+			if os.Getenv("C14_DEBUG") != "" {
+				fmt.Println("BASE NOT ACCEPTED:", err, err2)
+			}
 			continue
 		}
 		if i%4 == 3 {
